@@ -13,5 +13,6 @@ def waitTakesUnderMutex : Bool := true
 def waitSleepsOnCond : Bool := true
 def failCond : String := "!set"
 def recoverTakesMessage : String := "when-recoverable"
+def putsThenBroadcast : List (String × Nat × Nat) := [("fulfill", 1, 1), ("fail", 1, 1)]
 
 end Biogo.Generated.Concurrent
